@@ -41,9 +41,95 @@ func fillBytes(rng *core.RNG, b []uint8) {
 // is a sub-image of a larger parent, so its stride exceeds its width and its
 // Pix does not start at the first pixel.
 func newSource(kind string, r image.Rectangle, sub bool, rng *core.RNG) image.Image {
-	pr := r
+	mode := 0
 	if sub {
+		mode = 1
+	}
+	return newSourceMode(kind, r, mode, 0, rng)
+}
+
+// newSourceMode: subMode 0 = whole image, 1 = inset sub-image (stride > width), 2 = full-width band
+// of a taller parent (Pix runs on into the parent's rows below). content 0 = seeded bytes,
+// 1 = runs of equal pixels, 2 = all zero bytes, 3 = all 0xFF bytes.
+func newSourceMode(kind string, r image.Rectangle, subMode, content int, rng *core.RNG) image.Image {
+	img := newSourceRaw(kind, r, subMode, rng)
+	if content != 0 {
+		applyContent(img, content, rng)
+	}
+	return img
+}
+
+func planesOf(img image.Image) [][]uint8 {
+	switch m := img.(type) {
+	case *image.YCbCr:
+		return [][]uint8{m.Y, m.Cb, m.Cr}
+	case *image.NYCbCrA:
+		return [][]uint8{m.Y, m.Cb, m.Cr, m.A}
+	case opaqueSrc:
+		return planesOf(m.Image)
+	}
+	if p := pixOf(img); p != nil {
+		return [][]uint8{p}
+	}
+	return nil
+}
+
+func bytesPerPixel(img image.Image) int {
+	switch img.(type) {
+	case *image.RGBA64, *image.NRGBA64:
+		return 8
+	case *image.RGBA, *image.NRGBA, *image.CMYK:
+		return 4
+	case *image.Gray16, *image.Alpha16:
+		return 2
+	case opaqueSrc:
+		return 8
+	}
+	return 1
+}
+
+func applyContent(img image.Image, content int, rng *core.RNG) {
+	if pm, ok := img.(*image.Paletted); ok {
+		// palette indices must stay below the palette length
+		defer func() {
+			for i := range pm.Pix {
+				if int(pm.Pix[i]) >= len(pm.Palette) {
+					pm.Pix[i] = uint8(len(pm.Palette) - 1)
+				}
+			}
+		}()
+	}
+	bpp := bytesPerPixel(img)
+	for _, p := range planesOf(img) {
+		switch content {
+		case 1: // runs of equal pixels
+			for i := 0; i+bpp <= len(p); {
+				run := 2 + rng.Intn(9)
+				for k := 1; k < run && i+(k+1)*bpp <= len(p); k++ {
+					copy(p[i+k*bpp:i+(k+1)*bpp], p[i:i+bpp])
+				}
+				i += run * bpp
+			}
+		case 2:
+			for i := range p {
+				p[i] = 0
+			}
+		case 3:
+			for i := range p {
+				p[i] = 0xFF
+			}
+		}
+	}
+}
+
+func newSourceRaw(kind string, r image.Rectangle, subMode int, rng *core.RNG) image.Image {
+	sub := subMode != 0
+	pr := r
+	switch subMode {
+	case 1:
 		pr = image.Rect(r.Min.X-2, r.Min.Y-1, r.Max.X+3, r.Max.Y+2)
+	case 2:
+		pr = image.Rect(r.Min.X, r.Min.Y-1, r.Max.X, r.Max.Y+3)
 	}
 	if _, isY := ycbcrRatios[kind]; isY || kind == "NYCbCrA" {
 		// the standard library's chroma offset arithmetic truncates toward zero and
